@@ -263,4 +263,83 @@ Proof.
       rewrite D1, D2 in F3. exact F3.
 Qed.
 
+
 End Poll2.
+
+(** * Frame facts for the two sweep loops *)
+Definition sweep_frame (s s' : st) : Prop :=
+  completed s' = completed s /\ inprog s' = inprog s /\ ready s' = ready s /\ deps s' = deps s /\
+  canceled s' = canceled s /\ evs s' = evs s /\ length (recs s') = length (recs s) /\
+  (forall y, lastjob s' y = lastjob s y).
+
+Lemma sweep_frame_refl s : sweep_frame s s.
+Proof. repeat split. Qed.
+Lemma sweep_frame_trans a b d : sweep_frame a b -> sweep_frame b d -> sweep_frame a d.
+Proof.
+  intros (A1 & A2 & A3 & A4 & A5 & A6 & A7 & A8) (B1 & B2 & B3 & B4 & B5 & B6 & B7 & B8).
+  repeat split; try congruence. all: rewrite B8; apply A8.
+Qed.
+
+Lemma mark_failed_list_frame l : forall s, sweep_frame s (mark_failed_list l s).
+Proof.
+  unfold mark_failed_list. induction l as [|a l IH]; intros s; cbn [fold_left]; [apply sweep_frame_refl|].
+  eapply sweep_frame_trans; [|apply IH].
+  repeat split; first [intros y; rewrite lastjob_set_status; reflexivity | rewrite len_recs_set_status; reflexivity].
+Qed.
+
+Lemma mark_cancelled_list_frame l : forall s, sweep_frame s (mark_cancelled_list l s).
+Proof.
+  unfold mark_cancelled_list. induction l as [|a l IH]; intros s; cbn [fold_left]; [apply sweep_frame_refl|].
+  eapply sweep_frame_trans; [|apply IH].
+  repeat split; first [intros y; rewrite lastjob_set_status; reflexivity | rewrite len_recs_set_status; reflexivity].
+Qed.
+
+Lemma mark_failed_list_cancelled l : forall s, cancelled (mark_failed_list l s) = cancelled s.
+Proof. unfold mark_failed_list. induction l as [|a l IH]; intros s; cbn [fold_left]; auto. rewrite IH. reflexivity. Qed.
+Lemma mark_cancelled_list_failed l : forall s, failed (mark_cancelled_list l s) = failed s.
+Proof. unfold mark_cancelled_list. induction l as [|a l IH]; intros s; cbn [fold_left]; auto. rewrite IH. reflexivity. Qed.
+
+Arguments mark_failed_list : simpl never.
+Arguments mark_cancelled_list : simpl never.
+Arguments bfs_subtree : simpl never.
+Arguments submit_attempts : simpl never.
+
+(** * Tracked nodes and swept sub-trees *)
+Definition tracked (s : st) (y : nat) : Prop := In y (completed s) \/ In y (inprog s) \/ In y (ready s).
+Definition out (g : graph) (s : st) (y : nat) : Prop :=
+  y < length g /\ ~ In y (completed s) /\ ~ In y (inprog s) /\ ~ In y (ready s).
+
+Lemma subtree_out g s x y : WF g -> Inv g s -> x < length g -> ~ In x (completed s) ->
+  In y (bfs_subtree g x) -> y <> x -> out g s y.
+Proof.
+  intros W I Hx Hc Hy Hn.
+  assert (R : reach g x y) by (apply bfs_subtree_sound; auto).
+  assert (T : ~ tracked s y).
+  { intros T. apply Hc. eapply anc_completed; eauto. }
+  unfold tracked in T. split; [eapply reach_lt; eauto|]. tauto.
+Qed.
+
+Lemma srem_notin x l : ~ In x l -> srem x l = l.
+Proof.
+  unfold srem. induction l as [|a l IH]; intros H; cbn; auto.
+  destruct (Nat.eqb_spec x a) as [->|Hn]; [exfalso; apply H; left; reflexivity|].
+  cbn. f_equal. apply IH. intros Hi. apply H. right. exact Hi.
+Qed.
+
+Lemma length_sadd_srem x l : NoDup l -> length (sadd x l) = S (length (srem x l)).
+Proof.
+  intros N. destruct (in_dec Nat.eq_dec x l) as [Hi|Hi].
+  - unfold sadd. apply mem_In in Hi as Hm. rewrite Hm. symmetry. apply length_srem_in; auto.
+  - rewrite length_sadd_notin by auto. rewrite srem_notin by auto. reflexivity.
+Qed.
+
+Lemma live_of_false x L : live_of x L = false <-> ~ In x (map fst (live L)).
+Proof.
+  unfold live_of. split.
+  - intros H Hi. apply in_map_iff in Hi. destruct Hi as [[a b] [E Hi]]. cbn in E. subst a.
+    assert (existsb (fun p => fst p =? x) (live L) = true); [|congruence].
+    apply existsb_exists. exists (x, b). split; auto. cbn. apply Nat.eqb_refl.
+  - intros H. destruct (existsb (fun p => fst p =? x) (live L)) eqn:E; auto.
+    apply existsb_exists in E. destruct E as [[a b] [Hi E]]. cbn in E. apply Nat.eqb_eq in E. subst a.
+    exfalso. apply H. apply in_map_iff. exists (x, b). auto.
+Qed.
